@@ -10,6 +10,32 @@ from . import c01
 FRAGMENTS = [")", "]", ".", "->", "+", "* ", "3", '"s"', "= 3", ":", "sizeof"]
 
 
+STRICT_FRAGMENTS = (")", "]", ".", "->", "= 3", ":", "3", '"s"')
+
+
+def _owner(trace, fl):
+    """(primary rule, first line) of the statement that contains line fl."""
+    owner = (None, None)
+    for x in trace or []:
+        if x[3] is not None and x[3][0] <= fl:
+            owner = (x[2], x[3][0])
+    return owner
+
+
+def _absorbed_sig(owner, following, preceding=(), own_line=True):
+    """Call-site signature of a swallowed fragment: the rule that claimed it and the kind of the first line after it
+    that is neither empty nor a comment (what the rule was really recognising).  IsDeclaration is the catch-all of the
+    rule list (anything up to the next ';' that holds an identifier): for it the rule alone is the call site."""
+    if owner == "IsDeclaration":
+        return "absorbed-silently:OK:by=IsDeclaration(catch-all)"
+    if not own_line:
+        # the statement started on an earlier line: the fragment was taken for its continuation
+        prv = next((l.kind for l in reversed(list(preceding)) if l.kind not in ("empty", "comment")), "start")
+        return f"absorbed-silently:OK:by={owner}:after={prv}"
+    nxt = next((l.kind for l in following if l.kind not in ("empty", "comment")), "eof")
+    return f"absorbed-silently:OK:by={owner}:before={nxt}"
+
+
 def frag_task(task):
     """Worker: insert one fragment line and evaluate the conditional oracle.
     task = (ftype, ids, tier, fragment, mode) ; mode in ('mid', 'last-nl', 'last-nonl')"""
@@ -33,11 +59,43 @@ def frag_task(task):
                       (":stray-output" if r.stdout else "")
     elif r.exc is None and r.stdout:
         out["viol"] = "stray-output"
+    elif r.exc is None and r.status == "OK" and frag in STRICT_FRAGMENTS:
+        # the fragment cannot start or continue any statement at a statement boundary, whatever follows: a rule that
+        # absorbs it into its own statement drops it just as silently as the unrecognised path would
+        fl = npre + len(rp.lines) + 1 if mode == "mid" else npre + len(rp.lines) + len(comp) + 1
+        owner, oline = _owner(r.trace, fl)
+        out["viol"] = _absorbed_sig(owner, comp if mode == "mid" else [], rp.lines if mode == "mid" else rp.lines + comp, oline == fl)
     elif probs:
         out["viol"] = "partition:" + probs[0].split(" ")[0]
     if out["viol"]:
         out["text"] = pretext + body
     return out
+
+
+def line_task(task):
+    """Worker: every strict fragment as a line of its own (indented like the line that follows) at every line boundary
+    of one conforming carrier -- inside bodies, between a head and its brace, between members of a type block.  The
+    carrier alone is `OK!`; with the fragment the run must not end in `OK!`."""
+    fname, ftype, pre, lines = task
+    out = {}
+    n = 0
+    npre = len(pre)
+    for i in range(1, len(lines)):
+        prev, nxt = lines[i - 1], lines[i]
+        if nxt.kind == "cont" or (nxt.kind == "comment" and nxt.text().startswith(("**", "*/"))):
+            continue            # inside a wrapped statement / a block comment: the fragment would be part of it
+        for frag in STRICT_FRAGMENTS:
+            new = lines[:i] + [norm.Line([norm.P("raw", "\t" * nxt.depth + frag)], "raw")] + lines[i:]
+            text = norm.render(pre + new)
+            n += 1
+            r = impl.run_text(fname, text, trace=True)
+            if r.exc is None and r.status == "OK":
+                fl = npre + i + 1
+                owner, oline = _owner(r.trace, fl)
+                key = "fragment:" + _absorbed_sig(owner, lines[i:], lines[:i], oline == fl)
+                if key not in out:
+                    out[key] = (text, f"line {frag!r} inserted before line {npre + i + 1} ({nxt.kind}, after {prev.kind}): the file is still OK!")
+    return n, out
 
 
 def inv_task(task):
@@ -130,7 +188,10 @@ def run(tier, seed):
             st.bump(f"took_unrecognised_path:frag={fr}")
         if o["viol"]:
             ctx = ids[-1].split(":")[0] if ids else "init"
-            failures.append(Failure("C07", f"fragment:{o['viol']}:frag={fr!r}:{mode}" + (f":after={ctx}" if mode == "mid" else ""),
+            sig = f"fragment:{o['viol']}:frag={fr!r}:{mode}" + (f":after={ctx}" if mode == "mid" else "")
+            if o["viol"].startswith("absorbed-silently"):
+                sig = f"fragment:{o['viol']}"        # keyed on the rule that swallowed the fragment and on what follows it
+            failures.append(Failure("C07", sig,
                                     f"fragment {fr!r} ({mode}) after {ids[-2:]}: status {o['status']}, exc {o['exc']}, "
                                     f"stdout {o['stdout'][:20]!r} seg {o['seg'][:2]}",
                                     {"kind": "frag", "task": [ftype, list(ids), tier, fr, mode]}))
@@ -150,6 +211,18 @@ def run(tier, seed):
                 for label, sep in (("comment", ind + "// c"), ("blockcomment", ind + "/* c */"), ("empty", ""), ("define", "#define SEP 1")):
                     new = lines[:i] + [norm.Line([norm.P("raw", sep)], "raw")] + lines[i:]
                     vtasks.append((c["fname"], norm.render(c["pre"] + new), f"separator:{label}:before-brace-after-{lines[i - 1].kind}"))
+    ltasks = [(c["fname"], c["ftype"], c["pre"], c["lines"]) for c in carriers.conforming("quick", cap=24 if tier == "quick" else 200)]
+    lres = explore.pmap(line_task, ltasks, chunksize=1)
+    lmerged = {}
+    for t, (n, out) in zip(ltasks, lres):
+        st.runs += n
+        st.transitions += n
+        st.bump("strict_fragment_at_line_boundary", n)
+        for key, (text, detail) in out.items():
+            if key not in lmerged or len(text) < len(lmerged[key][1]):
+                lmerged[key] = (t[0], text, detail)
+    for key, (fname, text, detail) in sorted(lmerged.items()):
+        failures.append(Failure("C07", key, f"{fname}: {detail}", {"kind": "strict", "fname": fname, "text": text}))
     from . import c02
     for label, ln, code, text in c02.ternary_cases():
         vtasks.append(("test.h" if "#ifndef TEST_H" in text else "test.c", text, "violating:" + label))
@@ -201,6 +274,9 @@ def replay(payload):
         if r.stdout:
             probs.append("stray output")
         return [Failure("C07", "sample-prefix", p, payload) for p in probs]
+    if payload["kind"] == "strict":
+        r = impl.run_text(payload["fname"], payload["text"])
+        return [Failure("C07", "strict", "the file with the fragment is still OK!", payload)] if r.exc is None and r.status == "OK" else []
     if payload["kind"] == "inv":
         return [Failure("C07", "invariant", p, payload) for p in inv_task((payload["fname"], payload["text"], ""))]
     if payload["kind"] == "frag":
